@@ -907,6 +907,9 @@ func genConfig(r *rand.Rand, bs *schema.BodySchema, inject bool) (string, []Decl
 	g := &cfgGen{r: r, eg: &exprGen{r: r}, inj: inject}
 	g.body(bs, 0, 4)
 	s := g.sb.String()
+	if r.Intn(10) == 0 {
+		s = "/* leading block comment */\n" + s
+	}
 	if r.Intn(12) == 0 {
 		s = strings.ReplaceAll(s, "\n", "\r\n")
 	}
